@@ -193,8 +193,9 @@ pub(crate) fn any_vals() -> Vals {
 
 /// An arbitrary timeline satisfying `TL`: animates the properties in `mask` (bit0 = p,
 /// bit1 = q), never touches anything else; its value is an arbitrary step function of time
-/// (one symbolic threshold, three symbolic value sets) except that up to the delay it shows
-/// the start values (the substituted ones after `start_with`).
+/// (one symbolic threshold no later than its duration, three symbolic value sets) except that up
+/// to the delay it shows the start values (the substituted ones after `start_with`) and from its
+/// duration on it is constant (terminal constancy).
 #[derive(Clone, Debug)]
 pub(crate) struct AbsTl {
     pub mask: u8,
@@ -219,6 +220,10 @@ impl AbsTl {
         kani::assume(delay >= 0.0 && delay.is_finite());
         kani::assume(duration >= delay);
         kani::assume(!threshold.is_nan());
+        // TL includes terminal constancy: from `duration()` on the values no longer change (for real
+        // timelines this is C03's `ts_lemma_duration_agrees_*`: every position at t >= total is the
+        // terminal one), so the one step of the abstract timeline happens no later than that.
+        kani::assume(threshold <= duration);
         let has_cycle: bool = kani::any();
         let c: f32 = kani::any();
         kani::assume(c > 0.0 && c.is_finite());
